@@ -192,4 +192,10 @@ def sameShape : Piece → Piece → Prop
   | .comment _, .comment _ => True
   | _, _ => False
 
+/-- two programs have the same shape: same length, piecewise same shape -/
+def sameShapeList : List Piece → List Piece → Prop
+  | [], [] => True
+  | a :: t, b :: t' => sameShape a b ∧ sameShapeList t t'
+  | _, _ => False
+
 end Adaptix.Gen
